@@ -1,4 +1,4 @@
-From Verif Require Import Lib.Base Mkvs.Trie Mkvs.BitsProofs Mkvs.AlistProofs Mkvs.TrieProofs Mkvs.HashProofs.
+From Verif Require Import Lib.Base Mkvs.Trie Mkvs.BitsProofs Mkvs.AlistProofs Mkvs.TrieProofs Mkvs.HashProofs Mkvs.Overlay Mkvs.Corr Mkvs.CorrProofs.
 
 (* C02 - MKVS root hash depends only on the key/value contents.
    [wf] = path-prefix discipline + canonical compression; [valid_bytes] = every
@@ -88,3 +88,16 @@ Theorem root_changes_with_any_key :
     root_hash H t1 <> root_hash H t2 \/ collision H.
 Proof. exact HashProofs.root_changes_with_any_key. Qed.
 Print Assumptions root_changes_with_any_key.
+
+(* histories WITH commit markers, as replayed by the correspondence runs
+   ([c02_go] is the function evaluated on the recorded cases): commits do not
+   change the tree and the root reported by a final commit depends only on the
+   final contents, wherever the earlier commits were placed *)
+Theorem batching_irrelevant :
+  forall tab ops1 ops2,
+    Forall op_valid (cops_strip ops1) -> Forall op_valid (cops_strip ops2) ->
+    contents (snd (c02_go tab Nil ops1)) = contents (snd (c02_go tab Nil ops2)) ->
+    snd (c02_go tab Nil ops1) = snd (c02_go tab Nil ops2) /\
+    last (fst (c02_go tab Nil (ops1 ++ [CCommit]))) [] = last (fst (c02_go tab Nil (ops2 ++ [CCommit]))) [].
+Proof. exact CorrProofs.batching_irrelevant. Qed.
+Print Assumptions batching_irrelevant.
